@@ -196,6 +196,7 @@ func c12Scenarios(tier mc.Tier) []mc.Scenario {
 	out = append(out, mc.Scenario{Name: "C12-long-chains", Bound: -1, Expect: 4 * 4 * 3, Body: c12LongChains, Params: map[string]string{"lengths": "9, 10, 12, 17", "shapes": "all with responder / none with sources / first eight without / alternating", "watchdog": "60s"}})
 	out = append(out, mc.Scenario{Name: "C12-repeated-distribution-point", Bound: -1, Expect: 9, Body: c12RepeatedPoint, Params: map[string]string{"chain": "2", "points": "[u, u, v]", "checksPerEntry": "2"}})
 	out = append(out, mc.Scenario{Name: "C12-unusual-url-spellings", Bound: -1, Expect: 4 * 4 * 3 * 3, Body: c12Spellings, Params: map[string]string{"chain": "2", "spellings": "HTTP:// responder, responder path with a space, HtTp:// point, point with :80"}})
+	out = append(out, mc.Scenario{Name: "C12-unparsable-responder-url-before-a-usable-one", Bound: -1, Expect: 4 * 4 * 3, Body: c12Unparsable, Params: map[string]string{"chain": "3", "responders of the CA": "[a URL ending in a line feed, a usable one]", "entries": "3"}})
 	out = append(out, mc.Scenario{Name: "C12-non-http-distribution-points", Bound: 1, Body: c12NonHTTP, Params: map[string]string{"chain": "3", "shapes": "[ldap,http] and [https]"}})
 	for _, p := range []purposeKind{purposeCS, purposeTS} {
 		p := p
@@ -540,6 +541,71 @@ func c12Spellings(c *mc.Ctx) {
 		if res[0].Result != want.res {
 			c.Fail("C12 "+entry+" verdict with unusual URL spellings", "got %s, decision table says %s (ocsp %v crl %v)", res[0].Result, want.res, oc, cc)
 		}
+	}
+}
+
+var (
+	c12UpOnce sync.Once
+	c12UpW    *revWorld
+)
+
+// c12Unparsable: the intermediate certificate names two responders, the first of which is a string net/url refuses (legal in a
+// certificate: the field is an IA5String). Every entry point still owes one result per certificate, in order; the refused
+// string counts as a responder that gave no usable answer, the second responder is asked.
+func c12Unparsable(c *mc.Ctx) {
+	c12UpOnce.Do(func() {
+		c12UpW = newRevWorldURLs(3, []int{1, 2}, []int{0, 0}, purposeCS, func(kind string, ci, j int) (string, bool) {
+			if kind == "ocsp" && ci == 1 && j == 0 {
+				return ocspURL(ci, j) + "\n", true
+			}
+			return "", false
+		})
+	})
+	w := c12UpW
+	leafCls := c.ChooseFree("ocsp[leaf]", len(ocspClassNames))
+	caCls := c.ChooseFree("ocsp[ca,r1]", len(ocspClassNames))
+	entry := []string{"validatecontext", "validate", "checkstatus"}[c.ChooseFree("entry", 3)]
+	tr := &netsim.Transport{}
+	tr.Handler = func(r *netsim.Request, raw *http.Request) netsim.Answer {
+		src, ok := parseSource(r.URL)
+		if !ok || src.kind != "ocsp" {
+			return netsim.Answer{Status: 404}
+		}
+		if src.cert == 0 {
+			return w.serveOCSP(src, ocspRep(leafCls, src))
+		}
+		return w.serveOCSP(src, ocspRep(caCls, src))
+	}
+	chain := pki.X509s(w.certs)
+	c.Statef("unparsable leaf=%d ca=%d", leafCls, caCls)
+	res, err, pan := runEntry(entry, purposeCS, tr, chain)
+	if pan != nil {
+		c.Fail("C12 "+entry+" panic on a certificate whose responder URL does not parse", "%v", pan)
+		return
+	}
+	if err != nil || len(res) != 3 {
+		c.Fail("C12 "+entry+" valid chain not processed (unparsable responder URL)", "err=%v results=%d", err, len(res))
+		return
+	}
+	en := "validate"
+	if entry == "checkstatus" {
+		en = "checkstatus"
+	}
+	for i, r := range res {
+		if r == nil {
+			c.Fail("C12 "+entry+" missing result (unparsable responder URL)", "position %d", i)
+			return
+		}
+	}
+	if res[2].Result != result.ResultNonRevokable {
+		c.Fail("C12 "+entry+" root not NonRevokable (unparsable responder URL)", "got %s", res[2].Result)
+	}
+	// position 0 is an ordinary certificate; position 1: [no usable answer, chosen class]
+	want0 := refCert(0, []int{leafCls}, nil, en)
+	want1 := refCert(1, []int{3, caCls}, nil, en)
+	c.Outcome(fmt.Sprintf("unparsable:%s/%s", want0.res, want1.res))
+	if res[0].Result != want0.res || res[1].Result != want1.res {
+		c.Fail("C12 "+entry+" verdicts with an unparsable responder URL", "got [%s %s], decision table says [%s %s]", res[0].Result, res[1].Result, want0.res, want1.res)
 	}
 }
 
